@@ -36,14 +36,15 @@ FactVal(F, q) == F[CHOOSE i \in 1..Len(F) : F[i].f = q.f /\ F[i].a = q.a].o
 B == INSTANCE Bip32 WITH Has <- FactHas, Val <- FactVal, OrderN <- Secp256k1N, W <- 32
 A == INSTANCE AddrScript
 
-Verdict(v, dev, at, exp) == [v |-> v, dev |-> dev, at |-> at, exp |-> exp, need |-> <<>>]
-Good == Verdict("ok", "", 0, <<>>)
-Ask(qs) == [v |-> "need", dev |-> "", at |-> 0, exp |-> <<>>, need |-> qs]
+\* devs: the named deviations that explain the disagreement exactly (<<>>: none - a violation)
+Verdict(v, devs, at, exp) == [v |-> v, dev |-> IF devs = <<>> THEN "" ELSE devs[1], devs |-> devs, at |-> at, exp |-> exp, need |-> <<>>]
+Good == Verdict("ok", <<>>, 0, <<>>)
+Ask(qs) == [v |-> "need", dev |-> "", devs |-> <<>>, at |-> 0, exp |-> <<>>, need |-> qs]
 
 (* =============================== trace ==================================== *)
 PosObs(o) == [net |-> o.net, wt |-> o.wt, acct |-> o.acct, ch |-> o.ch, idx |-> o.idx]
 Cfg(c) == [net |-> c.net, wt |-> c.wt, acct |-> c.acct, ms |-> c.ms, cos |-> c.cos, watch |-> c.watch]
-Req(a) == [op |-> a.op, net |-> a.net, wt |-> a.wt, acct |-> a.acct, ch |-> a.ch, n |-> a.n, idx |-> a.idx]
+Req(a) == [op |-> a.op, net |-> a.net, wt |-> a.wt, acct |-> a.acct, ch |-> a.ch, n |-> a.n, idx |-> a.idx, form |-> a.form]
 LeafPos(l) == [net |-> l[1], wt |-> l[2], acct |-> l[3], ch |-> l[4], idx |-> l[5]]
 \* rows the wallet lists: <<net, wt, acct, change (-1: none), index, used (0 | 1), depth>>; the address keys are those at key depth
 Leafs(cfg, ls) == SelectSeq(ls, LAMBDA l : l[7] = KeyDepth(cfg.ms, l[2]))
@@ -67,13 +68,13 @@ OutPathsWhy(cfg, a, e) ==
 
 RECURSIVE Fold(_, _, _, _)
 Fold(cfg, s, evs, i) ==
-    IF i > Len(evs) THEN [v |-> "ok", at |-> 0, s |-> s, exp |-> <<>>]
+    IF i > Len(evs) THEN [v |-> "ok", at |-> 0, s |-> s, exp |-> <<>>, devs |-> <<>>]
     ELSE LET e   == evs[i]
              a   == Req(e.a)
              out == IF a.op = "new_account" /\ Len(e.out) = 1
                     THEN <<[net |-> e.out[1].net, wt |-> e.out[1].wt, acct |-> e.out[1].acct, ch |-> 0, idx |-> 0]>>
                     ELSE [k \in 1..Len(e.out) |-> PosObs(e.out[k])]
-             bad(c, x) == [v |-> c, at |-> i, s |-> s, exp |-> x]
+             bad(c, x) == [v |-> c, at |-> i, s |-> s, exp |-> x, devs |-> <<>>]
              lf  == Leafs(cfg, e.leafs)
              obs(s2) == IF LeafSet(lf) # s2.keys THEN "wallet-lists-other-address-keys-than-were-issued"
                         ELSE IF Len(lf) # Cardinality(s2.keys) THEN "wallet-lists-a-position-twice"
@@ -85,7 +86,7 @@ Fold(cfg, s, evs, i) ==
                   ELSE Fold(cfg, s, evs, i + 1))
             ELSE IF MustRefuse(cfg, s, a) THEN bad("answered-a-request-it-cannot-serve", FlatSeq(out))
             ELSE LET why == Allowed(cfg, s, a, out) IN
-                 IF why # "ok" THEN bad(why, Expected(s, a))
+                 IF why # "ok" THEN [bad(why, Expected(s, a)) EXCEPT !.devs = Attribution(cfg, s, a, out)]
                  ELSE IF OutPathsWhy(cfg, a, e) # "ok" THEN bad(OutPathsWhy(cfg, a, e), Expected(s, a))
                  ELSE LET s2 == After(cfg, s, a, out) IN
                       IF obs(s2) # "ok" THEN bad(obs(s2), <<>>) ELSE Fold(cfg, s2, evs, i + 1)
@@ -134,12 +135,12 @@ JTrace(r) ==
         T   == r.keys
         tb  == FirstBad(Len(T), LAMBDA i : TreeWhy(cfg, T, i))
         rb  == FirstBad(Len(r.restored), LAMBDA i : RestoredWhy(cfg, T, r.restored[i]))
-    IN IF f.v # "ok" THEN Verdict(f.v, "", f.at, f.exp)
+    IN IF f.v # "ok" THEN Verdict(f.v, f.devs, f.at, f.exp)
        ELSE IF {RowPos(T[i]) : i \in LeafRows(cfg, T)} # f.s.keys \/ Cardinality(LeafRows(cfg, T)) # Cardinality(f.s.keys)
-            THEN Verdict("key-table-differs-from-issued-positions", "", 0, <<>>)
-       ELSE IF tb # 0 THEN Verdict(TreeWhy(cfg, T, tb), "", T[tb].id, <<>>)
-       ELSE IF \E i, j \in 1..Len(T) : i < j /\ T[i].addr = T[j].addr THEN Verdict("two-keys-share-an-address", "", 0, <<>>)
-       ELSE IF rb # 0 THEN Verdict(RestoredWhy(cfg, T, r.restored[rb]), "", rb, <<>>)
+            THEN Verdict("key-table-differs-from-issued-positions", <<>>, 0, <<>>)
+       ELSE IF tb # 0 THEN Verdict(TreeWhy(cfg, T, tb), <<>>, T[tb].id, <<>>)
+       ELSE IF \E i, j \in 1..Len(T) : i < j /\ T[i].addr = T[j].addr THEN Verdict("two-keys-share-an-address", <<>>, 0, <<>>)
+       ELSE IF rb # 0 THEN Verdict(RestoredWhy(cfg, T, r.restored[rb]), <<>>, rb, <<>>)
        ELSE Good
 
 (* =============================== key ====================================== *)
@@ -202,22 +203,32 @@ Prefetch(r) ==
     \o (IF st.act = "err" THEN <<>>
         ELSE <<B!QHmac(r.parent.c, (IF r.parent.priv /\ st.hard THEN <<0>> \o r.parent.k ELSE r.parent.P) \o st.idx)>>)
 
+\* A third deviation concerns key material: DevPublicOnly - after the account public key was exported from a wallet object
+\* (public_master), keys that object derives directly below the exported key are stored without their private key.
+DevPublicOnly == "keys-derived-after-public-master-export-are-public-only"
 JKey(r) ==
     LET F == r.facts
         g == r.child
         e == ExpectedKey(F, r)
         ad == AddrWhy(F, r.net, r.wt, g.P, g.addr)
+        alts == {w \in VersionClass(r.net, r.wt) : w # r.wt}
+        alt(w) == AddrWhy(F, r.net, w, g.P, g.addr)
+        altneed == IF ad.st = "ok" /\ ad.why = "address" THEN {w \in alts : alt(w).st = "need"} ELSE {}
     IN IF F = <<>> THEN Ask(Prefetch(r))
        ELSE IF e.st = "need" \/ ad.st = "need" THEN Ask((IF e.st = "need" THEN e.need ELSE <<>>) \o ad.need)
-       ELSE IF e.st = "err" THEN Verdict("key-at-a-path-that-has-no-key", "", 0, <<>>)
-       ELSE IF FirstDiff(e.val, g) # "" THEN Verdict(FirstDiff(e.val, g), "", 0, FlatKey(e.val))
-       ELSE IF g.Pdb # g.P \/ (g.priv /\ g.kdb # g.k) THEN Verdict("stored-key-bytes-differ-from-stored-extended-key", "", 0, <<>>)
-       ELSE IF ad.why # "" THEN Verdict(ad.why, "", 0, <<>>)
+       ELSE IF altneed # {} THEN Ask(alt(CHOOSE w \in altneed : TRUE).need)
+       ELSE IF e.st = "err" THEN Verdict("key-at-a-path-that-has-no-key", <<>>, 0, <<>>)
+       ELSE IF FirstDiff(e.val, g) # ""
+            THEN Verdict(FirstDiff(e.val, g),
+                         IF r.exported /\ e.val.priv /\ ~g.priv /\ FirstDiff(B!Neuter(e.val), g) = "" THEN <<DevPublicOnly>> ELSE <<>>,
+                         0, FlatKey(e.val))
+       ELSE IF g.Pdb # g.P \/ (g.priv /\ g.kdb # g.k) THEN Verdict("stored-key-bytes-differ-from-stored-extended-key", <<>>, 0, <<>>)
+       ELSE IF ad.why # "" THEN Verdict(ad.why, IF \E w \in alts : alt(w).why = "" THEN <<DevBulkWt>> ELSE <<>>, 0, <<>>)
        ELSE Good
 
 Judge(r) == CASE r.k = "trace" -> JTrace(r)
               [] r.k = "key" -> JKey(r)
-              [] OTHER -> Verdict("unknown-record-kind", "", 0, <<>>)
+              [] OTHER -> Verdict("unknown-record-kind", <<>>, 0, <<>>)
 
 \* reference tables against the documents: BIP44/49/84/45/48 examples
 P0 == [net |-> "bitcoin", wt |-> "segwit", acct |-> 0, ch |-> 0, idx |-> 0]
